@@ -366,6 +366,29 @@ empty @is_you(int n) {
 }''', [['1'], ['200']]),
 ]
 
+# ------------------------------------------------------------------------------------------------ constants beyond 16 bits
+WIDE_PROG = '''int big = 100000; int neg = -100000; int edge = 65536; int nedge = -65536; int e1 = 65535; int ne1 = -65537;
+const int[] TAB = [70000, -70000, 8388607, -8388607, 16777, -1]; int[] MTAB = [-8000000, 8000000];
+int scale(int v) { return v * 1000 - 65536; }
+empty @is_you(int a) {
+  write(big); write(' '); write(neg); write(' '); write(edge + nedge); write(' '); write(e1); write(' '); write(ne1); write(' ');
+  for (int i = 0; i < TAB.length; i += 1) { write(TAB[i]); write(','); } write(MTAB[0] + MTAB[1]); write(' ');
+  write(0 - 100000); write(' '); write(a * 70000); write(' '); write(a - 4000000); write(' '); write(scale(a)); write(' '); write(-123456 + a); write(' ');
+  write(a * 1000 > 65536); write(a * 1000 < -65536); write(neg < nedge); write((neg is byte) is int); write(' ');
+  int[] l = [a, -99999, 99999]; write(l[1] + l[2] + l[0]); write(' '); int d = 8388607 / (a + 1); write(d); write(' '); write(-8388607 % 1000); write(' '); write(big is bool);
+}'''
+
+
+def wide_constants(ws=(3, 4, 8)):
+    """immediates, global initial values, table entries and folded constants between 2^16 and 2^23, at 24, 32 and 64 bits"""
+    items = []
+    for w in ws:
+        for a in ('7', '-3'):
+            items.append(runner.Item(('widec', a, w), WIDE_PROG, [a], w=w, s=120,
+                                     meta={'family': 'wide_constants', 'classifier': {'seq': 'wide_constants'}}))
+    return items
+
+
 # ------------------------------------------------------------------------------------------------ enumerated expression trees
 TREE_LEAVES = ['a', 'gi', 'gb', 'id(b)', 'ar[1]', 'GA[0]', '7', 's.length', 'bump()']
 TREE_OPS = ['+', '-', '*']
